@@ -182,6 +182,8 @@ def isAny : Ty → Bool
 
 def isCref : Ty → Bool | .cref .. => true | _ => false
 def isBad : Ty → Bool | .bad .. => true | _ => false
+/-- `Kind == KindRef` (also when the kind pointer is nil) -/
+def isRefKind (t : Ty) : Bool := t.kind == "ref"
 
 def setNullable (b : Bool) (t : Ty) : Ty := t.setMeta { t.getMeta with nullable := b }
 
@@ -234,28 +236,26 @@ def fmtFields (c : Ctx) : List Field → List GoField
           | none => { name := ucc f.name, ty := .crash "formatField:ResolveRefs-cycle", jsonName := f.name, omitEmpty := !f.required }
           | some r =>
             -- a reference to a constant is printed with the constant's type
-            if isConcreteScalar r then { name := ucc f.name, ty := fmtTy c r, jsonName := f.name, omitEmpty := !f.required }
-            else { name := ucc f.name, ty := fmtTy c f.ty, jsonName := f.name, omitEmpty := !f.required })
+            (match r with
+              | .scalar k v _ m =>
+                if !Cog.Passes.Val.isNil v then { name := ucc f.name, ty := fmtScalarTy c.cfg k m, jsonName := f.name, omitEmpty := !f.required }
+                else { name := ucc f.name, ty := fmtTy c f.ty, jsonName := f.name, omitEmpty := !f.required }
+              | _ => { name := ucc f.name, ty := fmtTy c f.ty, jsonName := f.name, omitEmpty := !f.required }))
       | _ => { name := ucc f.name, ty := fmtTy c f.ty, jsonName := f.name, omitEmpty := !f.required })
     :: fmtFields c fs
 /-- `formatIntersection`, first loop: references are embedded -/
 def fmtInterRefs (c : Ctx) : List Ty → List GoField
   | [] => []
   | b :: bs =>
-    (match b with
-      | .ref .. => [{ name := "", ty := fmtTy c b, embedded := true }]
-      | .bad "ref" _ => [{ name := "", ty := .crash "formatRef:nil-ref", embedded := true }]
-      | _ => []) ++ fmtInterRefs c bs
+    (if isRefKind b then [{ name := "", ty := fmtTy c b, embedded := true }] else []) ++ fmtInterRefs c bs
 /-- `formatIntersection`, second loop: struct branches contribute their fields, anything else is embedded -/
 def fmtInterRest (c : Ctx) : List Ty → List GoField
   | [] => []
   | b :: bs =>
+    let g := fmtTy c b
     (match b with
-      | .ref .. => []
-      | .bad "ref" _ => []
       | .struct fs _ _ _ => fmtFields c fs
-      | .bad "struct" _ => [{ name := "", ty := .crash "formatIntersection:nil-struct", embedded := true }]
-      | t => [{ name := "", ty := fmtTy c t, embedded := true }]) ++ fmtInterRest c bs
+      | _ => if isRefKind b then [] else [{ name := "", ty := g, embedded := true }]) ++ fmtInterRest c bs
 end
 
 /-- the Go type of an enum's first member (`formatType(enumType.Values[0].Type)`); the VIR keeps the
@@ -306,7 +306,7 @@ def fieldByName (n : String) : List Field → Option Field
 
 def isGenStruct : Ty → Bool
   | .struct _ _ gi m => gi.isSome ||
-      (m.hints.any fun (k, v) => (k == "disjunction_of_scalars" || k == "discriminated_disjunction_of_refs") && !Cog.Passes.Val.isNil v)
+      (m.hints.any fun (k, v) => (k == "disjunction_of_scalars" || k == "disjunction_of_refs") && !Cog.Passes.Val.isNil v)
   | _ => false
 
 def enumMemberFor (dflt : Val) : List EnumVal → Option String
